@@ -1,6 +1,6 @@
 import re
 from vdriver import Job
-from props import seqcases, C02 as _C02
+from props import seqcases, C02 as _C02, C03 as _C03
 
 LEVEL = "other"
 TECHNIQUE = "bounded inductive contract check (CBMC) on the real container operations over an element model with a finalisation ledger / exceptional postconditions"
@@ -12,7 +12,7 @@ TRUSTED = []
 def jobs(tier):
     import copy
     from props import C08, C09, C19, C20
-    J = seqcases.array_jobs(tier, "C12") + _C02.table_jobs(tier, "C12")
+    J = seqcases.array_jobs(tier, "C12") + _C02.table_jobs(tier, "C12") + _C03.tree_jobs(tier, "C12")
     extra = [j for j in C08.jobs(tier) if "method_missing" in j.name]
     extra += [j for j in C09.jobs(tier) if "mismatch" in j.name]
     extra += [j for j in C19.jobs(tier) if re.search(r"C19\.(dealloc_nonheap|null|stack|static)\.", j.name)]
